@@ -166,6 +166,9 @@ def module_spec(draw, role):
                                    if draw(st.integers(0, 3)) == 3 else []})
     else:
         spec["doc"] = draw(st.integers(0, 11)) == 11
+        # which names the output module imports from typing: all it could need, only some (no Literal), a star import,
+        # or the module itself - an import statement is a statement other than the selected location
+        spec["typing_import"] = draw(st.sampled_from(("full", "full", "partial", "star", "module")))
     return spec
 
 
@@ -259,7 +262,9 @@ def render_module(spec):
     out = []
     if spec.get("doc"):
         out += [MODULE_DOC, ""]
-    out.append("from typing import Dict, List, Literal, Optional, Union")
+    out.append({"partial": "from typing import Dict, List, Optional, Union", "star": "from typing import *",
+                "module": "import typing\nfrom typing import Optional"}.get(
+        spec.get("typing_import"), "from typing import Dict, List, Literal, Optional, Union"))
     if any(it["kind"] == "class" and it.get("base") == "Base" for it in spec["items"]):
         out += ["", "", "class Base(object):", "    pass"]
     if spec.get("consts"):
